@@ -98,6 +98,15 @@ def run_impl(case):
     da = xr.DataArray(np.array(case["vals"], dtype=case.get("dtype", "float64")).reshape(shape),
                       dims=[d for d, _ in case["dims"]])
     axis = k["axes"] if len(k["axes"]) > 1 else k["axes"][0]
+    if isinstance(axis, list) and len(case["vals"]) % 3 == 0:
+        axis = tuple(axis)
+    if case.get("dtype") in ("float64", "float32") and len(case["vals"]) % 4 == 1:
+        # lazy data, chunked along the dimensions that are not accumulated (cumsum along a chunked
+        # dimension is outside what map_overlap can do and is handled by the package differently)
+        acc = {d for a, cs in c["coords"] if a in k["axes"] for _, d in cs}
+        ch = {d: 1 for d in da.dims if d not in acc}
+        if ch:
+            da = da.chunk(ch)
     try:
         if case.get("warmup"):
             try:
